@@ -79,3 +79,23 @@ def register(PROPS, CLASSIFIERS, REPLAY_RUNNERS):
                "c19-spawn-directive-in-invoke-transition-rejected-at-creation",
                "c19-machinelogic-subclass-verbatim-names-no-failfast"):
         CLASSIFIERS[_n] = _c19cls(_n)
+
+    # ------------------------------------------------------------------ C17 code generator
+    def _c17cls(name):
+        def f(prob, case, flavor):
+            from . import c17
+            return c17.CLASSIFIERS[name](prob, case, flavor)
+        return f
+    PROPS["C17"] = {
+        # the code generator is not an engine run: its own exploration driver (same verdict contract), see c17.py
+        "flavors": ["sync", "async"], "streams": [], "oracles": [],
+        "q_checks": [_lazy("c17", n) for n in ("c17_naming", "c17_guard_ir", "c17_cli")],
+        "lake_targets": ["drivergen"],
+        "runner": lambda prop, tier, seed: _call("c17", "run_check")(prop, tier, seed),
+        "replay": lambda prop, path: _call("c17", "replay_main")(prop, path),
+    }
+    for _n in ("c17-guard-structure-lost-pythonic", "c17-stateIn-stub-overrides-builtin",
+               "c17-json-template-name-not-extracted", "c17-json-template-name-not-discoverable",
+               "c17-single-file-invalid-python", "c17-service-alias-raw-identifier",
+               "c17-single-file-stub-name-collision"):
+        CLASSIFIERS[_n] = _c17cls(_n)
